@@ -1,6 +1,6 @@
 import SigpyVerif.Model.C01
 import SigpyVerif.Lemmas.C01
-import SigpyVerif.Lemmas.C01Block
+import SigpyVerif.Props.C09
 /-
   C01 — every linear operator's adjoint is its true adjoint.
 
@@ -9,12 +9,12 @@ import SigpyVerif.Lemmas.C01Block
   the `Gen.*` loop nests regenerated from block.py / interp.py.  Scalars: any commutative star ring
   (ℂ in particular); `⟨a,b⟩ = Σ conj(a)·b` is numpy's `vdot`.
 
-  Proved: the algebra (`coo_adjoint`, composition / sum / conjugation / stacking rules,
-  `adj_denote` by structural induction) and the leaf pairs Identity, Reshape, Slice↔Embed,
-  Interpolate↔Gridding (arbitrary kernel weights from the generated loops).  For the other leaf
-  classes the pairing is proved at the index level (Props/C09: resize_transpose, roll_inverse,
-  up_down_index, …; Lemmas/C01Block: blocks in 1–3 D as permutations) and the entry-level statement
-  is validated by the exact matrix correspondence; `adj_denote` takes them as the hypothesis `LeafOK`.
+  Proved here: the algebra (`coo_adjoint`, composition / sum / conjugation / stacking rules,
+  `adj_denote` by structural induction over a leaf predicate `P`) and the leaf pairs Identity,
+  Reshape, Slice↔Embed.  Props/C01Leaves.lean discharges the leaf hypothesis for Transpose, Resize,
+  Flip, Circshift, Down/Upsample, Sum/Tile, Multiply, ArrayToBlocks/BlocksToArray and
+  Interpolate/Gridding (`adj_denote_leaves`); only MatMul / RightMatMul remain validated by the exact
+  matrix correspondence alone.
 -/
 set_option linter.unusedSectionVars false
 namespace SigpyVerif.C01
